@@ -862,6 +862,7 @@ def _shadow_invocations(ctx, sim_time, workload, worker_pools, policy, rng):
         if t._state.name == "SCHEDULED" and pd is not None and pd.is_placed() and pd.execution_strategy is not None:
             start = max(pd.placement_time.time, now)
             base["scheduled"][tid] = {"task": t.unique_name, "pool": pd.worker_pool_id, "worker": pd.worker_id, "start": start,
+                                      "planned": pd.placement_time.time,
                                       "end": start + pd.execution_strategy.runtime.time,
                                       "demand": policymon.demand_of(pd.execution_strategy)}
     # the planners key their variables by Task.unique_name (name@graph): graphs that hold several timestamps of one job
@@ -924,8 +925,9 @@ def _shadow_invocations(ctx, sim_time, workload, worker_pools, policy, rng):
                 ctx.violate("C10", "side_effect_cluster", f"{name} at {now} changed the live cluster", policy=type(pol).__name__)
             if policymon.tasks_digest(workload) != dig_t:
                 ctx.violate("C10", "side_effect_tasks", f"{name} at {now} changed task state", policy=type(pol).__name__)
-            policymon.check_decision(call, pls, lambda k, d: ctx.violate("C10", k, f"{name} (shadow, chaos state) at t={now}: {d}",
-                                                                        policy=type(pol).__name__, greedy=(kind == "greedy")))
+            policymon.check_decision(call, pls, lambda k, d: ctx.violate(
+                "C10", k, f"{name} (shadow, chaos state) at t={now}: {d}", policy=type(pol).__name__, greedy=(kind == "greedy"),
+                **({"deferred_pending": bool((call.get("joint_facts") or {}).get("deferred_pending"))} if k.startswith("joint_capacity") else {})))
             if call.get("input_infeasible"):
                 ctx.count("shadow_calls_input_infeasible")
             call["placements"] = pls
